@@ -23,6 +23,11 @@ func (vc *VC) Run() {
 	vc.addFact("assume", sx("<=", "0", st.nextId))
 	vc.entrySt = st.clone()
 	vc.entryEnv = map[string]TV{}
+	// channel sequence counters exist from the start (a call made before the first mention must not
+	// look as if it could have changed them)
+	if vc.fc != nil && len(vc.prog.cs.FifoChans) > 0 {
+		vc.fifoFn()
+	}
 	for _, p := range fn.Params {
 		n := vc.declare("p_"+mangle(p.Name()), vc.sortOf(p.Type()))
 		vc.setVal(p, n)
@@ -141,6 +146,44 @@ func (vc *VC) Run() {
 		if ok {
 			vc.assumeNote("global invariant " + gi.Name + " (proved at the return of " + gi.Init + "; its variables are written only by init functions: checked by a whole-module scan) is not relied upon during package initialisation")
 			vc.addFact("assume", t)
+		}
+	}
+	// onlycalls: every call of the function goes to one of the named callees
+	if vc.fc != nil && len(vc.fc.OnlyCalls) > 0 {
+		hit := ""
+		for _, b := range fn.Blocks {
+			for _, ins := range b.Instrs {
+				ci, ok := ins.(ssa.CallInstruction)
+				if !ok {
+					continue
+				}
+				if _, isB := ci.Common().Value.(*ssa.Builtin); isB {
+					continue
+				}
+				key, cf, disp := vc.calleeKey(ci.Common())
+				full := key + " " + disp
+				if cf != nil {
+					full += " " + cf.String()
+				}
+				allowed := false
+				for _, a := range vc.fc.OnlyCalls {
+					if strings.Contains(full, a) {
+						allowed = true
+					}
+				}
+				if !allowed {
+					hit = disp
+				}
+			}
+		}
+		cond := "true"
+		if hit != "" {
+			cond = "false"
+		}
+		o := vc.obligeG("nocall", "only:"+strings.Join(vc.fc.OnlyCalls, ","), "true", cond, fn.Pos())
+		if hit != "" {
+			o.Result, o.Solver = "sat", "syntactic"
+			o.Model = "the function also calls " + hit
 		}
 	}
 	// nocall: the function contains no call whose callee name contains the given text
